@@ -522,6 +522,13 @@ M("C10", "from-mps-off-diagonal", MPDM, "                mo[:, iaxis, iaxis, :] 
   "purification puts the state on the anti-diagonal of (physical, ancilla)")
 M("C10", "from-mps-shared-config", MPDM, "        mpo.compress_config = mps.compress_config.copy()\n        return mpo", "        mpo.compress_config = mps.compress_config\n        return mpo", ["purification", "from_mps"],
   "purified state shares its compression configuration with the source state")
+M("C06", "ps-label-bond", MPS, "                    mps.qn[imps] = qnrset\n", "                    mps.qn[imps + 1] = qnrset\n", ["label-co-update", "_evolve_tdvp_ps"], "left sweep of the projector splitting stores the kept labels one bond off")
+M("C06", "ps-centre-not-moved", MPS, "                    mps.qn[imps + 1] = qnlset\n                    mps.qnidx = imps+1", "                    mps.qn[imps + 1] = qnlset", ["label-co-update", "_evolve_tdvp_ps"],
+  "right sweep of the projector splitting leaves the label centre behind")
+M("C06", "ps2-stale-sites", MPS, "                qnbigl, qnbigr, _ = mps._get_big_qn([cidx0, cidx1])\n                mps._update_mps", "                qnbigl, qnbigr, _ = mps._get_big_qn([cidx0, cidx2])\n                mps._update_mps",
+  ["fresh-labels", "_evolve_tdvp_ps2"], "two-site projector splitting computes the block labels for other sites than it updates")
+M("C17", "ps2-no-operator-swap", MPS, "                mps._update_mps(mps_t, [cidx0, cidx1], qnbigl, qnbigr)\n                if mps.compress_config.ofs is not None:\n                    mpo.try_swap_site(mps.model, mps.compress_config.ofs_swap_jw)",
+  "                mps._update_mps(mps_t, [cidx0, cidx1], qnbigl, qnbigr)", ["ofs-pair", "_evolve_tdvp_ps2"], "two-site time evolution swaps sites of the state but not of the operator")
 M("C06", "canonicalise-switch-always", "renormalizer/mps/mp.py", "        if (not self.to_right and idx == 1) or (self.to_right and idx == self.site_num - 2):\n            self._switch_direction()", "        self._switch_direction()", ["sweep-centre"],
   "direction switched after partial sweeps too")
 M("C02", "graph-cover-le", "renormalizer/mps/symbolic_mpo.py", "    if non_red.shape[0] < non_red.shape[1]:\n        for i in range(non_red.shape[0]):", "    if non_red.shape[0] <= non_red.shape[1]:\n        for i in range(non_red.shape[0]):", ["terminal-cover"],
